@@ -31,6 +31,8 @@ pub struct World {
     /// cells holding the shared references that `MutRefs` targets borrow mutably
     cells: std::sync::Mutex<Vec<usize>>,
     cell_lens: std::sync::Mutex<Vec<usize>>,
+    /// references to locks that member guards handed out (KeepLockRef): (lock, address, is an RwLock)
+    pub exposed: std::sync::Mutex<Vec<(Lid, usize, bool)>>,
 }
 
 unsafe impl Send for World {}
@@ -107,7 +109,7 @@ impl World {
                 }
             }
         }
-        let mut w = World { spec: spec.clone(), arena, leaf_ptr, unit_ptr, runit_ptr, targets: Vec::new(), datas: Vec::new(), cells: std::sync::Mutex::new(Vec::new()), cell_lens: std::sync::Mutex::new(Vec::new()) };
+        let mut w = World { spec: spec.clone(), arena, leaf_ptr, unit_ptr, runit_ptr, targets: Vec::new(), datas: Vec::new(), cells: std::sync::Mutex::new(Vec::new()), cell_lens: std::sync::Mutex::new(Vec::new()), exposed: std::sync::Mutex::new(Vec::new()) };
         for d in &spec.datas {
             // exclusive borrows of arena leaves (no other reference to these leaves is ever made)
             let members: Vec<&'static mut Leaf> = d.leaves.iter().map(|l| unsafe { &mut *(w.leaf_ptr[*l].expect("data leaf must have an arena slot") as *mut Leaf) }).collect();
@@ -228,9 +230,47 @@ impl World {
             TSpec::Exposed { unit } => {
                 let ru: &'static RUnit = self.runit_ptr.get(*unit).copied().flatten().map(|p| unsafe { &*p }).ok_or_else(|| BuildErr::Bad(format!("no by-reference unit {}", unit)))?;
                 match crate::shape::expose_owned(ru) {
-                    // as it must be: an owned collection shows its members to nobody
-                    None => Err(BuildErr::Rejected),
                     Some((refs, _route)) => BoxedLockCollection::try_new(refs).map(|c| Node::Slice(crate::shape::SNode::BoxedV(c))).ok_or(BuildErr::Rejected),
+                    None => {
+                        // references that member guards handed out while the unit was held, if any
+                        let ex = self.exposed.lock().unwrap();
+                        let mut got: Vec<(usize, bool)> = Vec::new();
+                        for l in &self.spec.units[*unit].leaves {
+                            match ex.iter().find(|e| e.0 == *l) {
+                                Some(e) => got.push((e.1, e.2)),
+                                // as it must be: an owned collection shows its members to nobody
+                                None => return Err(BuildErr::Rejected),
+                            }
+                        }
+                        if got.is_empty() {
+                            return Err(BuildErr::Rejected);
+                        }
+                        // the owned collection listed next to one of its own members: a duplicate
+                        {
+                            let mut g = sched.lock();
+                            g.stats.dup_checks += 1;
+                            g.stats.dup_pos += 1;
+                        }
+                        let accepted = if got[0].1 {
+                            let m: &'static R = unsafe { &*(got[0].0 as *const R) };
+                            BoxedLockCollection::try_new((ru, m)).is_some() || RetryingLockCollection::try_new((ru, m)).is_some()
+                        } else {
+                            let m: &'static M = unsafe { &*(got[0].0 as *const M) };
+                            BoxedLockCollection::try_new((ru, m)).is_some() || RetryingLockCollection::try_new((ru, m)).is_some()
+                        };
+                        if accepted {
+                            sched.report(Clause::DupVerdict, format!("try_new accepted (owned collection, reference to its own member {}) - the reference was handed out by a member guard of the owned collection", self.spec.units[*unit].leaves[0]));
+                        }
+                        if got.iter().all(|g| !g.1) {
+                            let refs: Vec<&'static M> = got.iter().map(|g| unsafe { &*(g.0 as *const M) }).collect();
+                            BoxedLockCollection::try_new(refs).map(|c| Node::Slice(crate::shape::SNode::BoxedVM(c))).ok_or(BuildErr::Rejected)
+                        } else if got.iter().all(|g| g.1) {
+                            let refs: Vec<&'static R> = got.iter().map(|g| unsafe { &*(g.0 as *const R) }).collect();
+                            BoxedLockCollection::try_new(refs).map(|c| Node::Slice(crate::shape::SNode::BoxedVR(c))).ok_or(BuildErr::Rejected)
+                        } else {
+                            Err(BuildErr::Rejected)
+                        }
+                    }
                 }
             }
             TSpec::Slice { kind, members, array: true, .. } => {
